@@ -14,33 +14,46 @@ import SC.Format
 import SC.Units
 import SC.Engine
 import SCP.C07
+import SCP.Lemmas.C08
 namespace SCP.C08
 open SC
+open SCP.Lemmas.C08
 
 def IsSep (c : Char) : Prop := ¬ (isDigit c = true) ∧ c ≠ '.' ∧ c ≠ '-' ∧ c ≠ '+'
 
+/-- a separator does not occur in a string of digits -/
+theorem IsSep.not_mem {c : Char} (hc : IsSep c) {l : List Char} (hl : ∀ x ∈ l, isDigit x = true) :
+    c ∉ l := fun h => hc.1 (hl c h)
+
 /-- `str::replace` with a one-character pattern is a character-wise substitution -/
 theorem strReplace_single (s rep : List Char) (c : Char) :
-    strReplace s [c] rep = s.flatMap (fun x => if x = c then rep else [x]) := by sorry
+    strReplace s [c] rep = s.flatMap (fun x => if x = c then rep else [x]) :=
+  strReplace_single' s rep c
 
 /-- Writing a number as grouped integer digits, decimal separator, fraction digits and reading
     it back with the same separators yields `ip.fp`. -/
 theorem read_write (d t : Char) (hd : IsSep d) (ht : IsSep t) (hdt : d ≠ t) (ip fp : List Char)
     (hip : ∀ c ∈ ip, isDigit c = true) (hfp : ∀ c ∈ fp, isDigit c = true) :
-    strReplace (strReplace (groupThousands [t] ip ++ d :: fp) [t] []) [d] ['.'] = ip ++ '.' :: fp := by sorry
+    strReplace (strReplace (groupThousands [t] ip ++ d :: fp) [t] []) [d] ['.'] = ip ++ '.' :: fp := by
+  rw [remove_thousands d t hdt ip fp (ht.not_mem hip) (ht.not_mem hfp),
+    replace_decimal d ip fp (hd.not_mem hip) (hd.not_mem hfp)]
 
 /-- the same without a thousands separator (empty string): the empty pattern of `str::replace`
     inserts the (empty) replacement between all characters, i.e. changes nothing -/
 theorem read_write_no_thousands (d : Char) (hd : IsSep d) (ip fp : List Char)
     (hip : ∀ c ∈ ip, isDigit c = true) (hfp : ∀ c ∈ fp, isDigit c = true) :
-    strReplace (strReplace (ip ++ d :: fp) [] []) [d] ['.'] = ip ++ '.' :: fp := by sorry
+    strReplace (strReplace (ip ++ d :: fp) [] []) [d] ['.'] = ip ++ '.' :: fp := by
+  rw [strReplace_empty_empty, replace_decimal d ip fp (hd.not_mem hip) (hd.not_mem hfp)]
 
 /-- hence two conventions read the "same" literal to the same number -/
 theorem read_same_number {F : Type} [Num F] (d t d' t' : Char) (hd : IsSep d) (ht : IsSep t) (hdt : d ≠ t)
     (hd' : IsSep d') (ht' : IsSep t') (hdt' : d' ≠ t') (ip fp : List Char)
     (hip : ∀ c ∈ ip, isDigit c = true) (hfp : ∀ c ∈ fp, isDigit c = true) :
     (readLiteral (String.singleton d) (String.singleton t) (groupThousands [t] ip ++ d :: fp) : Option F) =
-      readLiteral (String.singleton d') (String.singleton t') (groupThousands [t'] ip ++ d' :: fp) := by sorry
+      readLiteral (String.singleton d') (String.singleton t') (groupThousands [t'] ip ++ d' :: fp) := by
+  unfold readLiteral
+  rw [String.toList_singleton, String.toList_singleton, String.toList_singleton, String.toList_singleton,
+    read_write d t hd ht hdt ip fp hip hfp, read_write d' t' hd' ht' hdt' ip fp hip hfp]
 
 /-- two configurations that differ only in the separators -/
 def SepEquiv {F : Type} (c c' : Cfg F) : Prop :=
@@ -50,6 +63,13 @@ def SepEquiv {F : Type} (c c' : Cfg F) : Prop :=
 theorem calc_ignores_separators {F : Type} [Num F] (c c' : Cfg F) (h : SepEquiv c c') (a b : Item F) (op : BinOp)
     (hnd : ∀ v u, a ≠ .dyn v u) :
     calcItem c.rates (fun w u2 => match a with | .dyn _ u => convForCalc c u w u2 | _ => none) a b op =
-      calcItem c'.rates (fun w u2 => match a with | .dyn _ u => convForCalc c' u w u2 | _ => none) a b op := by sorry
+      calcItem c'.rates (fun w u2 => match a with | .dyn _ u => convForCalc c' u w u2 | _ => none) a b op := by
+  have hr : c'.rates = c.rates := by
+    have := congrArg Cfg.rates h
+    simpa using this
+  rw [hr]
+  cases a with
+  | dyn v u => exact absurd rfl (hnd v u)
+  | _ => rfl
 
 end SCP.C08
